@@ -40,7 +40,9 @@ class SimQueue(SimProxyBase):
             sim.count('put_blocked_on_full_queue')
             if not block:
                 raise _queue.Full
-        sim.seam('queue.put', cond=lambda: not full() or self.env.manager_closed)
+        ok = sim.seam('queue.put', cond=lambda: not full() or self.env.manager_closed, timeout=timeout)
+        if not ok and full():
+            raise _queue.Full
         if self.env.manager_closed:
             raise EOFError('simulated manager has shut down')     # what a blocked proxy call sees when the server goes away
         self.items.append(data)
@@ -58,7 +60,9 @@ class SimQueue(SimProxyBase):
             sim.count('get_blocked_on_empty_queue')
             if not block:
                 raise _queue.Empty
-        sim.seam('queue.get', cond=lambda: len(self.items) > 0 or self.env.manager_closed)
+        ok = sim.seam('queue.get', cond=lambda: len(self.items) > 0 or self.env.manager_closed, timeout=timeout)
+        if not ok and not self.items:
+            raise _queue.Empty
         if not self.items and self.env.manager_closed:
             raise EOFError('simulated manager has shut down')
         data = self.items.popleft()
@@ -234,10 +238,7 @@ class SimEvent(SimProxyBase):
         return self.flag
 
     def wait(self, timeout=None):
-        if timeout is not None and not self.flag:
-            self.env.sim.seam('event.wait(timeout)', cost=float(timeout))
-            return self.flag
-        self.env.sim.seam('event.wait', cond=lambda: self.flag or self.env.manager_closed)
+        self.env.sim.seam('event.wait', cond=lambda: self.flag or self.env.manager_closed, timeout=timeout)
         return self.flag
 
 
@@ -389,7 +390,7 @@ class SimProcess:
         if self.task is None:
             raise AssertionError('can only join a started process')
         t = self.task
-        self.env.sim.seam('process.join', cond=lambda: t.done)
+        self.env.sim.seam('process.join', cond=lambda: t.done, timeout=timeout)
 
     def is_alive(self):
         return self.task is not None and not self.task.done
@@ -440,7 +441,9 @@ class SimAsyncResult:
         self.pool.env.sim.seam('pool.wait', cond=lambda: self.left == 0 or self.pool.dead())
 
     def get(self, timeout=None):
-        self.pool.env.sim.seam('pool.result.get', cond=lambda: self.left == 0 or self.pool.dead())
+        ok = self.pool.env.sim.seam('pool.result.get', cond=lambda: self.left == 0 or self.pool.dead(), timeout=timeout)
+        if not ok and self.left:
+            raise multiprocessing.TimeoutError()
         if self.left:
             raise HarnessError('pool terminated with results outstanding (a real Pool would block here)')
         out = []
